@@ -124,15 +124,21 @@ def cmd_wt(sid, checks, verify=True):
     env = dict(ENV, PV_REPO=wt)
     meta = json.load(open(f"{d}/meta.json"))
     try:
-        r = sh(f"git -C {wt} apply --whitespace=nowarn {d}/core.diff")
-        if r.returncode != 0:
-            r = sh(f"git -C {wt} apply --3way --whitespace=nowarn {d}/core.diff")
+        if meta.get("apply_full"):
+            # the change is about WHICH files were (not) regenerated: apply the agent's patch as it is
+            r = sh(f"git -C {wt} apply --whitespace=nowarn {d}/patch.orig.diff")
             if r.returncode != 0:
                 print(sid, "APPLY FAILED", r.stderr[:1500]); return 1
-            sh(f"git -C {wt} reset -q")
-        r = subprocess.run(f"cd {V} && ./bin/pv regen --write", shell=True, text=True, capture_output=True, env=env)
-        if not re.search(r" 0 errors", r.stdout):
-            print(sid, "REGEN problems:", r.stdout[-1500:])
+        else:
+            r = sh(f"git -C {wt} apply --whitespace=nowarn {d}/core.diff")
+            if r.returncode != 0:
+                r = sh(f"git -C {wt} apply --3way --whitespace=nowarn {d}/core.diff")
+                if r.returncode != 0:
+                    print(sid, "APPLY FAILED", r.stderr[:1500]); return 1
+                sh(f"git -C {wt} reset -q")
+            r = subprocess.run(f"cd {V} && ./bin/pv regen --write", shell=True, text=True, capture_output=True, env=env)
+            if not re.search(r" 0 errors", r.stdout):
+                print(sid, "REGEN problems:", r.stdout[-1500:])
         if verify:
             t = subprocess.run(f"cd {wt} && go build ./... && go test -vet=off -count=1 ./... 2>&1 | grep -v '^ok\\|no test files' | head -20", shell=True, text=True, capture_output=True, env=env)
             suite_ok = (t.stdout.strip() == "" and t.returncode == 0)
